@@ -618,6 +618,21 @@ def library_spellings(tree, stats):
         visit_ListComp = visit_SetComp = visit_GeneratorExp = visit_DictComp = _comp_items
 
         # ---- x in [a, b] is x in (a, b): a display written in a membership test is only searched
+        def visit_Subscript(self, n):
+            # X.split(S, 1)[0] / X.split(S, maxsplit=1)[0] / X.partition(S)[0] is X.split(S)[0]: the text before the first separator
+            self.generic_visit(n)
+            v = n.value
+            if isinstance(n.ctx, ast.Load) and isinstance(n.slice, ast.Constant) and n.slice.value == 0 and isinstance(v, ast.Call) and isinstance(v.func, ast.Attribute):
+                one = lambda e: isinstance(e, ast.Constant) and e.value == 1 and type(e.value) is int
+                if v.func.attr == "split" and (len(v.args) == 2 and not v.keywords and one(v.args[1])
+                                               or len(v.args) == 1 and len(v.keywords) == 1 and v.keywords[0].arg == "maxsplit" and one(v.keywords[0].value)):
+                    bump("split(s, 1)[0]")
+                    v.args, v.keywords = v.args[:1], []
+                elif v.func.attr == "partition" and len(v.args) == 1 and not v.keywords:
+                    bump("partition(s)[0]")
+                    v.func.attr = "split"
+            return n
+
         def visit_Compare(self, n):
             self.generic_visit(n)
             _frozenset_in_equality(n)
